@@ -91,6 +91,10 @@ func H_C13_int_accessors() {
 	if neg {
 		code = 0x30
 	}
+	// encoding freedom: pad leading zero bytes in front of the magnitude (over-padded ints are valid Ion)
+	if pad := vparam("pad", 0); pad > 0 {
+		body = vCat(make([]byte, pad), body)
+	}
 	doc := vCat(vBVM, vTLV(code, body...))
 	r := NewReaderBytes(doc)
 	if !r.Next() {
